@@ -353,6 +353,11 @@ pub fn run(seed: u64, count: usize, outdir: &str, jit: bool) -> std::io::Result<
             let p: Vec<f32> = (0..nvars).map(|_| if choice_heavy { gen_tame(&mut r) } else { gen_f32(&mut r, 0.2) }).collect();
             (Input::Point(p.clone()), vec![p])
         };
+        // a JIT point trace is judged against the interpreter's / the model's; at a point where the sign of a zero is open (C02) the two
+        // may legitimately compute different values downstream and decide later clauses differently: such a case runs on the interpreter
+        let use_jit = use_jit && match &inp { Input::Point(p) => { let mut orc = crate::refeval::Oracle::default(); let env = |v: Var| p[var_id(v, &dag.vs) as usize];
+            let _ = crate::refeval::eval_arena(&dag.ctx, &env, &mut orc); !(orc.zero_tie || orc.atan00 || orc.atan_y_zero || orc.abs_of_neg_zero) }, _ => true };
+        let (n, m) = if use_jit { (n, m) } else if (n, m) == (12, 12) { (12, 12) } else { (n, m) };
         // ---- implementation
         let mut given: Vec<Option<Vec<u8>>> = vec![];
         let mut notes: Vec<String> = vec![];
